@@ -27,7 +27,7 @@ type round struct {
 	Idx       int
 	N         int    // contenders
 	Cleans    []bool // per contender
-	OldState  string // none idle mid-handshake token-wait dying blocked-in-send
+	OldState  string // none idle mid-handshake pubrel-racing token-wait dying blocked-in-send
 	OldClean  bool
 	Traffic   bool
 	Perturb   bool
@@ -55,6 +55,11 @@ func run(r *h.Run, rd round) {
 	b.Mon.Inner.SessionQueueSize = 1 << 14
 	if rd.OldState == "token-wait" {
 		b.Mon.Inner.ClientParallelPublishes = 3
+	}
+	if rd.OldState == "pubrel-racing" {
+		// the hand-over of the old connection's QoS 2 message takes a moment, so
+		// that the takeover can kill the connection in the middle of it
+		b.Mon.SlowPublishTopic, b.Mon.SlowPublishDelay = "other/h2", time.Duration(200+rd.Idx%7*300)*time.Microsecond
 	}
 	blocked := rd.OldState == "blocked-in-send"
 	var gate chan struct{}
@@ -179,6 +184,12 @@ func run(r *h.Run, rd round) {
 				r.Inconclusive("old PUBREC")
 				return
 			}
+		case "pubrel-racing":
+			_ = old.Send(&packet.Publish{ID: 9, Message: packet.Message{Topic: "other/h2", QOS: 2, Payload: []byte("h2")}})
+			if _, err := bh.AwaitAck(old, packet.PUBREC, 9); err != nil {
+				r.Inconclusive("old PUBREC")
+				return
+			}
 		case "token-wait":
 			// all publish tokens of the old connection are bound in open QoS 2
 			// handshakes; one more publish parks its processor waiting for a token
@@ -249,6 +260,9 @@ func run(r *h.Run, rd round) {
 	if rd.OldState == "dying" {
 		go func() { <-start; old.Close() }()
 	}
+	if rd.OldState == "pubrel-racing" {
+		go func() { <-start; _ = old.Send(&packet.Pubrel{ID: 9}) }()
+	}
 	close(start)
 	done := make(chan struct{})
 	go func() { wg.Wait(); close(done) }()
@@ -312,6 +326,36 @@ func run(r *h.Run, rd round) {
 	if len(alive) != 1 {
 		fail("survivors", fmt.Sprintf("%d contenders are alive after %d simultaneous CONNECTs with one id (alive: %v)", len(alive), rd.N, alive))
 		return
+	}
+	// ---- (g) a QoS 2 message whose PUBREL raced with the takeover is handed on
+	// exactly once, whoever completes the handshake
+	if rd.OldState == "pubrel-racing" && allUnclean {
+		surv := results[alive[0]].p
+		gotComp := false
+		for _, g := range old.All() {
+			if pc, ok := g.(*packet.Pubcomp); ok && pc.ID == 9 {
+				gotComp = true
+			}
+		}
+		if !gotComp {
+			// as a client would: no PUBCOMP seen, so the PUBREL is retransmitted
+			_ = surv.Send(&packet.Pubrel{ID: 9})
+			if _, err := bh.AwaitAck(surv, packet.PUBCOMP, 9); err != nil {
+				fail("pubrel-unanswered-after-takeover", fmt.Sprintf("the surviving connection retransmitted PUBREL 9 and got no PUBCOMP: %v", err))
+				return
+			}
+		}
+		n := 0
+		for _, ci := range b.Mon.Clients() {
+			for _, m := range b.Mon.Snapshot(ci).Publishes {
+				if m.Topic == "other/h2" {
+					n++
+				}
+			}
+		}
+		if n != 1 {
+			fail("qos2-handed-on-not-once-across-takeover", fmt.Sprintf("the old connection's QoS 2 message (PUBREL sent while the takeover was in progress, retransmitted by the survivor: %t) was handed to the backend %d times", !gotComp, n))
+		}
 	}
 	// ---- (d) session-present in Setup order
 	type su struct {
@@ -450,18 +494,21 @@ func boolInt(b bool) int {
 
 func TestCheck(t *testing.T) {
 	r := h.New("C13", "exploration")
-	r.Rule("rounds of 2-8 simultaneous CONNECTs with one client id (clean/unclean mixed, started together or staggered by 150us) against an old connection that is absent / idle / mid QoS 2 handshake / parked waiting for a publish token / dying by itself at the same moment / blocked in a send (bounded wire, peer not reading), with a publisher pumping numbered QoS 1 messages towards the id and backend-boundary perturbation; monitors: Setup/Terminate interval bookkeeping, CONNACK pre-send assertion on Closed() of every older client of the id, PINGREQ liveness probe of all contenders (exactly one survivor), session-present replay in recorded Setup order, Terminate counts, displaced will, backend bookkeeping snapshot, no loss / no second non-duplicate delivery when all parties are persistent. Non-trivial = rounds in which >= 2 Setup calls for the id succeeded; distinct by round parameters; distinct Setup orders are counted separately")
+	r.Rule("rounds of 2-8 simultaneous CONNECTs with one client id (clean/unclean mixed, started together or staggered by 150us) against an old connection that is absent / idle / mid QoS 2 handshake / sending its PUBREL at that very moment / parked waiting for a publish token / dying by itself at the same moment / blocked in a send (bounded wire, peer not reading), with a publisher pumping numbered QoS 1 messages towards the id and backend-boundary perturbation; monitors: Setup/Terminate interval bookkeeping, CONNACK pre-send assertion on Closed() of every older client of the id, PINGREQ liveness probe of all contenders (exactly one survivor), session-present replay in recorded Setup order, Terminate counts, displaced will, backend bookkeeping snapshot, no loss / no second non-duplicate delivery when all parties are persistent. Non-trivial = rounds in which >= 2 Setup calls for the id succeeded; distinct by round parameters; distinct Setup orders are counted separately")
 	r.Assume("the blocked-in-send variant is the recorded known finding (takeover deadlock); its detection uses a 1.5 s bound confirmed by two goroutine profiles")
 	rng := r.Rand("c13")
 	n := r.Pick(1200, 25000)
 	var rounds []round
-	states := []string{"none", "idle", "idle", "mid-handshake", "dying", "idle", "token-wait"}
+	states := []string{"none", "idle", "idle", "mid-handshake", "dying", "idle", "token-wait", "pubrel-racing"}
 	for i := 0; i < n; i++ {
 		rd := round{Idx: i, N: 2 + rng.Intn(7), OldState: states[rng.Intn(len(states))], OldClean: rng.Intn(3) == 0, Traffic: rng.Intn(2) == 0, Perturb: rng.Intn(2) == 0, Staggered: rng.Intn(3) == 0}
 		if rd.OldState == "token-wait" {
 			rd.Traffic = false // a stuck takeover must show as "no progress at all"
 		}
 		allUnclean := rng.Intn(3) == 0
+		if rd.OldState == "pubrel-racing" {
+			allUnclean = true // the message must survive in the session
+		}
 		for k := 0; k < rd.N; k++ {
 			rd.Cleans = append(rd.Cleans, !allUnclean && rng.Intn(2) == 0)
 		}
